@@ -1,4 +1,4 @@
-import PcbV.Lemmas.TextScreenWrite
+import PcbV.Lemmas.TextScreenClosed
 /-
   C36 — the text cursor and the screen content stay consistent.
 
@@ -114,6 +114,130 @@ theorem locate_spec {s : St} (i : Inv s) (r c : Int) :
         · rw [inRange_iff] at hrow; rw [if_neg ha]; simp only [height] at hrow; exact ⟨hrow.1, by omega⟩
       · rw [if_pos (by simp [hcol])]; rfl
     · rw [if_pos (by simp [hrow])]; rfl
+
+/-- `set_pos` to the current cell changes nothing -/
+theorem setPos_self {s : St} (i : Inv s) : setPos s s.row s.col false = s := by
+  have c1 := i.col1; have c2 := i.colw; have hw := i.w
+  have e0 : (if s.col < s.width then { s with overflow := false } else s) = s := by
+    split
+    · rename_i hlt
+      have : s.overflow = false := by
+        cases h : s.overflow
+        · rfl
+        · have := i.ovf h; omega
+      cases s; simp_all
+    · rfl
+  unfold setPos
+  simp only []
+  rw [e0]
+  show wrapAround s false = s
+  rcases i.rowok with h | h
+  · exact wrapAround_id false h.2.2 c1 c2 h.1 h.2.1
+  · rw [wrapAround_eq, if_pos ⟨h.2, by rw [h.1]; rfl⟩]
+    have : min s.width s.col = s.col := by omega
+    rw [this, if_neg (by omega)]
+
+/-- **LOCATE with omitted arguments.**  An omitted row or column stands for the current one
+    (`current_row` / `current_col`; with a wrap pending that is the last column of the row the cursor is still
+    on, not the cell CSRLIN/POS announce).  With the completed pair `(row, col)`:
+    * valid and at least one argument given: the cursor is exactly at `(row, col)`, CSRLIN/POS report it, no wrap
+      is pending, text and window untouched (`MovedTo`);
+    * valid and both omitted (`LOCATE`, `LOCATE ,`): nothing changes at all, a pending wrap included;
+    * invalid: Illegal function call.
+    `locate_spec` is the case of two given arguments. -/
+theorem locate_spec_omitted {s : St} (i : Inv s) (r c : Option Int) :
+    let row : Int := r.getD s.row
+    let col : Int := c.getD s.col
+    (locateValid s row col → ∃ t, locate s r c = .ok t ∧
+        ((r.isSome ∨ c.isSome) → MovedTo s t row.toNat col.toNat) ∧ (r = none ∧ c = none → t = s)) ∧
+    (¬ locateValid s row col → locate s r c = .error 5) ∧
+    (c = none → (1 : Int) ≤ col ∧ col ≤ s.width) ∧
+    (r = none → (s.active = false ∨ s.row ≤ s.bottom) →
+      (if s.active then (s.top : Int) ≤ row ∧ row ≤ s.bottom else 1 ≤ row ∧ row ≤ 25)) := by
+  intro row col
+  have er' : r.getD ↑s.row = row := rfl
+  have ec' : c.getD ↑s.col = col := rfl
+  have h1 := i.top1; have h2 := i.tb; have h3 := i.b24; have hw := i.w
+  have hact := i.act
+  have c1 := i.col1; have c2 := i.colw
+  have hrow25 : 1 ≤ s.row ∧ s.row ≤ 25 := by rcases i.rowok with h | h <;> omega
+  refine ⟨?_, ?_, ?_, ?_⟩
+  · intro hv
+    obtain ⟨hr, hc1, hc2⟩ := hv
+    have hrow : (if s.active = true then inRange ↑s.top ↑s.bottom row else inRange 1 ↑height row) = true := by
+      split at hr <;> rename_i ha
+      · simp [ha, inRange_iff, hr]
+      · simp [ha, inRange_iff, height, hr]
+    have hcol : inRange 1 ↑s.width col = true := by simp [inRange_iff, hc1, hc2]
+    unfold locate
+    simp only [er', ec']
+    rw [if_neg (by simp [hrow]), if_neg (by simp [hcol])]
+    refine ⟨_, rfl, ?_, ?_⟩
+    · intro hsome
+      rw [if_pos hsome]
+      by_cases h25 : row = (height : Int)
+      · have e25 : row.toNat = 25 := by simp [h25, height]
+        rw [if_pos h25, e25]
+        have := setPos_row25 (u := { { s with bottomAllowed := true } with overflow := false }) (c := col.toNat)
+          rfl rfl (by omega) (by simp only []; omega)
+        unfold MovedTo at this ⊢
+        exact this
+      · have hin : s.top ≤ row.toNat ∧ row.toNat ≤ s.bottom := by
+          split at hr <;> rename_i ha
+          · omega
+          · have := hact (by simpa using ha); simp only [height] at h25; omega
+        rw [if_neg h25]
+        have := setPos_in_window (u := { s with overflow := false }) (r := row.toNat) (c := col.toNat) rfl
+          (by omega) (by simp only []; omega) hin.1 hin.2 h3
+        unfold MovedTo at this ⊢
+        exact this
+    · intro ⟨hr0, hc0⟩
+      subst hr0 hc0
+      have er : row = (s.row : Int) := rfl
+      have ec : col = (s.col : Int) := rfl
+      simp only [Option.isSome_none, Bool.false_eq_true, or_self, if_false]
+      rw [er, ec, Int.toNat_natCast, Int.toNat_natCast]
+      have e1 : (if (s.row : Int) = (height : Int) then { s with bottomAllowed := true } else s) = s := by
+        split
+        · rename_i h25
+          have : s.row = 25 := by simp only [height] at h25; omega
+          rcases i.rowok with h | h
+          · omega
+          · cases s; simp_all
+        · rfl
+      rw [e1]
+      exact setPos_self i
+  · intro hv
+    unfold locate
+    simp only [er', ec']
+    by_cases hrow : (if s.active = true then inRange ↑s.top ↑s.bottom row else inRange 1 ↑height row) = true
+    · rw [if_neg (by simp [hrow])]
+      by_cases hcol : inRange 1 ↑s.width col = true
+      · exfalso
+        apply hv
+        rw [inRange_iff] at hcol
+        refine ⟨?_, hcol.1, hcol.2⟩
+        split at hrow <;> rename_i ha
+        · rw [inRange_iff] at hrow; rw [if_pos ha]; exact hrow
+        · rw [inRange_iff] at hrow; rw [if_neg ha]; simp only [height] at hrow; exact ⟨hrow.1, by omega⟩
+      · rw [if_pos (by simp [hcol])]; rfl
+    · rw [if_pos (by simp [hrow])]; rfl
+  · intro hc0
+    subst hc0
+    have ec : col = (s.col : Int) := rfl
+    rw [ec]; omega
+  · intro hr0 hwin
+    subst hr0
+    have er : row = (s.row : Int) := rfl
+    rw [er]
+    split
+    · rename_i ha
+      rcases hwin with h | h
+      · rw [h] at ha; cases ha
+      · rcases i.rowok with x | x
+        · omega
+        · omega
+    · omega
 
 /-! ### screen_fn_reads_last_written -/
 
@@ -394,8 +518,10 @@ theorem sim_reported {s : St} {t : TW} (h : Sim s t) : (csrlin s, pos s) = t.rep
     continued row (in particular: on a cleared window, `cleared_ready`), puts every character where the
     reference typewriter `TW` puts it — left to right, wrapping after column `width`, moving the window up one
     row when the text passes its last row — and CSRLIN/POS report the typewriter's carriage position.
-    Gap (not a theorem here): the closed form of `TW` itself (k-th character in row `top + k / W − scrolls`,
-    column `k % W + 1`); the last `example` of this file and the Python oracle check it on instances. -/
+    The closed form of `TW` (k-th character in row `top + k / W − scrolls`, column `k % W + 1`) is
+    `typewriter_machine_closed_form`; composed with this theorem it is `typewriter_closed_form` (about
+    `Console.write`), `print_on_cleared_window` / `typewriter_no_scroll` (about the PRINT statement) and
+    `closed_form_after_any_history`. -/
 theorem typewriter_refinement {s : St} (i : Inv s) (hin : s.row ≤ s.bottom) (ho : s.overflow = false)
     (hnw : NoWrapBelow s) (txt : List Nat) (hp : Plain txt) :
     let t := TW.type s.width s.top s.bottom ⟨s.chars, s.row, s.col⟩ txt
@@ -535,6 +661,163 @@ theorem typewriter_after_clear {s : St} (i : Inv s) (txt : List Nat) (hp : Plain
   have := typewriter_refinement rd.inv rd.inwin rd.definite rd.nowrap txt hp
   simp only [e1, e2, e3, rd.home.1, rd.home.2] at this
   exact ⟨this.1, this.2.2.1⟩
+
+/-! ### typewriter_closed_form: where the k-th character is -/
+
+/-- The closed form of the reference typewriter.  `n` characters typed from the first cell of a window
+    `[top, bottom]` (`h` rows of `W` columns) that is blank on the sheet `rows0`: the window has scrolled
+    `sc = (n−1)/W + 1 − h` times (0 while the text fits); character `k` is in row `top + k/W − sc`, column
+    `k % W + 1` unless its line has scrolled out (`k < sc·W`); all other cells of the window are blank; the rows
+    outside the window are those of `rows0`; the carriage is behind the last character. -/
+theorem typewriter_machine_closed_form {W top bottom : Nat} {rows0 : List (List Nat)} (txt : List Nat)
+    (hW : W = 40 ∨ W = 80) (h1 : 1 ≤ top) (h2 : top ≤ bottom) (h3 : bottom ≤ 24)
+    (l0 : rows0.length = 25) (rl0 : ∀ x ∈ rows0, x.length = W)
+    (blank : ∀ ρ γ, top ≤ ρ → ρ ≤ bottom → cell rows0 ρ γ = 32) :
+    let t := TW.type W top bottom ⟨rows0, top, 1⟩ txt
+    let n := txt.length
+    let sc := twScrolls W (bottom - top + 1) n
+    (∀ k, k < n → sc * W ≤ k → top + k / W - sc ≤ bottom ∧ cell t.rows (top + k / W - sc) (k % W + 1) = txt.getD k 32) ∧
+    (∀ ρ γ, top ≤ ρ → ρ ≤ bottom → 1 ≤ γ → γ ≤ W → n ≤ (ρ - top + sc) * W + (γ - 1) → cell t.rows ρ γ = 32) ∧
+    (∀ r c, 1 ≤ r → (r < top ∨ bottom < r) → cell t.rows r c = cell rows0 r c) ∧
+    (n = 0 → t.r = top ∧ t.c = 1) ∧
+    (0 < n → t.r = top + (n - 1) / W - sc ∧ t.c = (n - 1) % W + 2) := by
+  intro t n sc
+  have inv : TWInv W top bottom rows0 txt n t := by
+    have := twInv_type txt hW h1 h2 h3 l0 rl0 blank txt.length (Nat.le_refl _)
+    rw [List.take_length] at this
+    exact this
+  have hsc : sc = twScrolls W (bottom - top + 1) n := rfl
+  refine ⟨?_, ?_, ?_, inv.pos0, inv.pos⟩
+  · intro k hk hs
+    have hn : n ≠ 0 := by omega
+    have hsc' : sc = ((n - 1) / W + 1) - (bottom - top + 1) := by rw [hsc]; unfold twScrolls; rw [if_neg hn]
+    have hb : top + k / W - sc ≤ bottom := by rcases hW with rfl | rfl <;> omega
+    refine ⟨hb, ?_⟩
+    have := inv.cells (top + k / W - sc) (k % W + 1) (by rcases hW with rfl | rfl <;> omega) hb (by omega)
+      (by rcases hW with rfl | rfl <;> omega)
+    rw [this, ← hsc]
+    have e : (top + k / W - sc - top + sc) * W + (k % W + 1 - 1) = k := by rcases hW with rfl | rfl <;> omega
+    rw [e, if_pos hk]
+  · intro ρ γ p1 p2 g1 g2 hq
+    rw [inv.cells ρ γ p1 p2 g1 g2, ← hsc, if_neg (by omega)]
+  · intro r c r1 hr
+    rw [cell_eq, cell_eq, inv.out (r - 1) (by omega)]
+
+/-- **typewriter_closed_form** — the same, directly about the model's `Console.write` on a cleared window
+    (`Ready u`: `clear_view`/CLS just ran, see `cleared_ready`), for plain text `txt` of any length:
+    with `W = u.width`, `h = u.bottom − u.top + 1`, `sc = (n−1)/W + 1 − h` scrolls,
+    * character `k` (0-based) is stored in row `top + k/W − sc`, column `k % W + 1` (for `k ≥ sc·W`; earlier
+      characters have scrolled out of the window);
+    * every cell of the window past the text is blank;
+    * every row outside the window is unchanged;
+    * CSRLIN/POS report the cell behind the last character (column 1 of the following row when the text ends
+      on the last column; the same row if that is the last row of the window). -/
+theorem typewriter_closed_form {u : St} (rd : Ready u) (txt : List Nat) (hp : Plain txt) :
+    let s' := consoleWrite u txt
+    let W := u.width
+    let n := txt.length
+    let sc := twScrolls W (u.bottom - u.top + 1) n
+    (∀ k, k < n → sc * W ≤ k →
+      u.top + k / W - sc ≤ u.bottom ∧ cell s'.chars (u.top + k / W - sc) (k % W + 1) = txt.getD k 32) ∧
+    (∀ ρ γ, u.top ≤ ρ → ρ ≤ u.bottom → 1 ≤ γ → γ ≤ W → n ≤ (ρ - u.top + sc) * W + (γ - 1) →
+      cell s'.chars ρ γ = 32) ∧
+    (∀ r c, 1 ≤ r → (r < u.top ∨ u.bottom < r) → cell s'.chars r c = cell u.chars r c) ∧
+    (0 < n → (csrlin s', pos s') =
+      TW.reported W u.bottom ⟨[], u.top + (n - 1) / W - sc, (n - 1) % W + 2⟩) ∧
+    (n = 0 → s' = u) := by
+  intro s' W n sc
+  have i := rd.inv
+  obtain ⟨e1, _, e3, _, _, _⟩ := typewriter_refinement i rd.inwin rd.definite rd.nowrap txt hp
+  rw [rd.home.1, rd.home.2] at e1 e3
+  obtain ⟨m1, m2, m3, _, m5⟩ := typewriter_machine_closed_form (W := u.width) (top := u.top) (bottom := u.bottom)
+    (rows0 := u.chars) txt i.w i.top1 i.tb i.b24 i.clen i.rlen (fun ρ γ a b => rd.blank ρ γ a b)
+  have hs' : s' = consoleWrite u txt := rfl
+  refine ⟨?_, ?_, ?_, ?_, ?_⟩
+  · intro k hk hs; rw [hs', e1]; exact m1 k hk hs
+  · intro ρ γ a b c d e; rw [hs', e1]; exact m2 ρ γ a b c d e
+  · intro r c a b; rw [hs', e1]; exact m3 r c a b
+  · intro hn
+    rw [hs', e3]
+    obtain ⟨p1, p2⟩ := m5 hn
+    unfold TW.reported
+    simp only []
+    rw [p1, p2]
+  · intro hn
+    have : txt = [] := List.eq_nil_of_length_eq_zero hn
+    rw [hs', this]; rfl
+
+/-- … and about the statement `PRINT A$;` itself (SCRN: file → `Console.write`): on a cleared window it is
+    the `Console.write` of `typewriter_closed_form`. -/
+theorem print_on_cleared_window {u : St} (rd : Ready u) (txt : List Nat) (hp : Plain txt) :
+    step u (Op.print txt false) = consoleWrite u txt := by
+  have := rd.inv.w
+  exact printStr_plain_home u rd.home.2 (by omega) txt hp
+
+/-- The text fits in the window (`n ≤ h·W`): no scroll; character `k` is in row `top + k / W`, column
+    `k % W + 1`. -/
+theorem typewriter_no_scroll {u : St} (rd : Ready u) (txt : List Nat) (hp : Plain txt)
+    (hfit : txt.length ≤ (u.bottom - u.top + 1) * u.width) :
+    ∀ k, k < txt.length →
+      u.top + k / u.width ≤ u.bottom ∧
+      cell (step u (Op.print txt false)).chars (u.top + k / u.width) (k % u.width + 1) = txt.getD k 32 := by
+  intro k hk
+  rw [print_on_cleared_window rd txt hp]
+  have hw := rd.inv.w
+  have hsc : twScrolls u.width (u.bottom - u.top + 1) txt.length = 0 := by
+    unfold twScrolls
+    rw [if_neg (by omega)]
+    rcases hw with e | e <;> rw [e] at hfit ⊢ <;> omega
+  have := (typewriter_closed_form rd txt hp).1 k hk (by rw [hsc]; omega)
+  rw [hsc] at this
+  exact this
+
+/-- Once the text is longer than the window, each further line costs exactly one scroll:
+    the scroll count after `j+1` characters exceeds the one after `j` characters by one exactly when character
+    `j` starts a new line (`j % W = 0`) below the window (`j / W ≥ h`), and is unchanged otherwise. -/
+theorem scrolls_one_row_per_line (W h j : Nat) (hW : W = 40 ∨ W = 80) (hh : 1 ≤ h) :
+    twScrolls W h (j + 1) = twScrolls W h j + (if j % W = 0 ∧ h ≤ j / W then 1 else 0) := by
+  rw [twScrolls_succ]
+  unfold twScrolls
+  by_cases hj : j = 0
+  · subst hj
+    have h0 : ¬ h = 0 := by omega
+    rcases hW with rfl | rfl <;> simp [h0] <;> omega
+  · rw [if_neg hj]
+    rcases hW with rfl | rfl <;> split <;> omega
+
+/-- Over all histories: whatever was done before, after the window has been cleared (`clear_view`: CLS with a
+    VIEW PRINT window, or CHR$(12)) printing plain text `txt` with `PRINT txt;` puts character `k` in row
+    `top + k/W − sc`, column `k % W + 1` (`sc` = scrolls, 0 while the text fits the window), leaves the rest of
+    the window blank and every row outside the window as the history left it. -/
+theorem closed_form_after_any_history (ops : List Op) (txt : List Nat) (hp : Plain txt) :
+    let u := clearView (run init ops)
+    let s' := step u (Op.print txt false)
+    let sc := twScrolls u.width (u.bottom - u.top + 1) txt.length
+    (∀ k, k < txt.length → sc * u.width ≤ k →
+      u.top + k / u.width - sc ≤ u.bottom ∧
+      cell s'.chars (u.top + k / u.width - sc) (k % u.width + 1) = txt.getD k 32) ∧
+    (∀ ρ γ, u.top ≤ ρ → ρ ≤ u.bottom → 1 ≤ γ → γ ≤ u.width →
+      txt.length ≤ (ρ - u.top + sc) * u.width + (γ - 1) → cell s'.chars ρ γ = 32) ∧
+    (∀ r c, 1 ≤ r → (r < u.top ∨ u.bottom < r) → cell s'.chars r c = cell (run init ops).chars r c) := by
+  intro u s' sc
+  have i := inv_run inv_init ops
+  obtain ⟨rd, e1, e2, _⟩ := cleared_ready i
+  have hs' : s' = consoleWrite u txt := print_on_cleared_window rd txt hp
+  obtain ⟨a, b, c, _, _⟩ := typewriter_closed_form rd txt hp
+  rw [hs']
+  refine ⟨a, b, ?_⟩
+  intro r col r1 hr
+  rw [c r col r1 hr]
+  -- `clear_view` itself only touches the window
+  have hout := clearRows_outside (run init ops).width (run init ops).chars (run init ops).top (run init ops).bottom
+    i.top1 i.tb (by have := i.b24; have := i.clen; omega)
+  have ec : u.chars = clearRowsChars (run init ops).width (run init ops).chars (run init ops).top (run init ops).bottom := by
+    show (clearView (run init ops)).chars = _
+    unfold clearView
+    rw [setPos_home (u := clearRows (run init ops) (run init ops).top (run init ops).bottom) (run init ops).top true
+      (by show 1 < (run init ops).width; have := i.w; omega) (Nat.le_refl _) i.tb i.b24]
+    rfl
+  rw [cell_eq, cell_eq, ec, hout (r - 1) (by rw [e1, e2] at hr; omega)]
 
 /-! ### the unrepaired code: counterexamples -/
 
